@@ -226,12 +226,6 @@ def parseUnOp : List String → Option UnOp
     | _ => none
   | _ => none
 
-/-- end of a unique_ptr program: the harness destroys the live handles slot by slot, then deletes the raw pointers -/
-def finishUn (s : Un) : Un :=
-  let s1 := (List.range s.k).foldl (fun s h => if s.alive h then
-    (let s' := s.delete (s.target h); { s' with slot := upd s'.slot h none }) else s) s
-  (List.range s1.nraw).foldl (fun s r => if (s.raw r).isSome then { s.delete (s.raw r) with raw := upd s.raw r none } else s) s1
-
 def runUn : Un → List (List String) → List String → Option (Un × List String)
   | s, [], acc => some (s, acc.reverse)
   | s, o :: os, acc =>
@@ -249,7 +243,7 @@ def handleUp (toks : List String) : String :=
     | some k =>
       if k = 0 ∨ k > 6 then "bad-op" else
       match runUn (Un.init k) ops [] with
-      | some (s, outs) => " ; ".intercalate ((outs ++ ["end " ++ showUn (finishUn s)]).map both)
+      | some (s, outs) => " ; ".intercalate ((outs ++ ["end " ++ showUn s.finish]).map both)
       | none => "bad-op"
     | none => "bad-op"
   | _ => "bad-op"
